@@ -4,7 +4,7 @@ Q, T = "quick", "thorough"
 PROPS = {
     "C16": dict(
         pkg="c16", level="exploration",
-        technique="property-based testing (rapid) with model + independent-parser oracle; enumerated lengths 0..1024; native fuzzing of the parser",
+        technique="property-based testing (rapid) with model + independent-parser oracle, parsing through chunked readers (one byte, halves, data-with-EOF, every two-piece split) and accessor-agreement / survival-across-parses checks; enumerated lengths 0..1024; native fuzzing of the parser",
         level_text=("Generated search: set sequences are checked against an in-memory model (round trip through hc's serialiser and parser) and against an "
                     "independent parser implementing the specification's fragment rule; every value length 0..1024 is enumerated; parser inputs are "
                     "generated and coverage-fuzzed with a 'nothing invented' oracle. Evidence for absence of violations in the explored space, not a proof."),
@@ -69,7 +69,7 @@ PROPS = {
     ),
     "C17": dict(
         pkg="c17", level="exploration",
-        technique="property-based testing (rapid, reflect-driven value generator) with an independent schema-driven TLV8 codec as differential oracle in both directions; decoder fuzzing (rapid + native)",
+        technique="property-based testing (rapid, reflect-driven value generator) with an independent schema-driven TLV8 codec as differential oracle in both directions and byte-exact comparison of Marshal's output with the reference encoding; decoder fuzzing (rapid + native)",
         level_text=("Generated search over values of every rtp message type and of synthetic structs covering every field kind at its extremes; three oracles per value: hc round trip, "
                     "reference-decode(hc Marshal) = v, hc Unmarshal(reference-encode) = v. Arbitrary and mutated byte strings are decoded into every type under recover (no panic)."),
         level_note="Trusted: refctl.StructEncode/StructDecode (written from the TLV8 rules; self-checked on every generated value). Elements of lists carry at least one numeric field (as every library type does); pointer fields are not generated.",
@@ -87,7 +87,7 @@ PROPS = {
     ),
     "C18": dict(
         pkg="c18", level="exploration",
-        technique="stateful property-based testing (rapid state machines) against an in-memory map model, with reopen",
+        technique="stateful property-based testing (rapid state machines) against an in-memory map model, with reopen, names of arbitrary bytes up to 100 and storage paths with special characters",
         level_text=("Generated histories of Set/Get/Delete/KeysWithSuffix/reopen on the file storage and of SaveEntity/EntityWithName/DeleteEntity/Entities/reopen on the pairing database, "
                     "each on a fresh directory, compared after every step (and completely after every reopen and at the end) with an in-memory map."),
         level_note="Trusted: the map model. Storage keys are file-name-safe strings without ':' and '/', as hc's own callers use; values up to 4096 bytes; entity names up to 100 arbitrary bytes.",
@@ -119,7 +119,7 @@ PROPS = {
     ),
     "C12": dict(
         pkg="c12", level="exploration", prebuild="go run ./cmd/genregistry",
-        technique="property-based testing (rapid) of update sequences with a type/range invariant after every step, over every characteristic constructor; enumerated constructor x hostile-value matrix",
+        technique="property-based testing (rapid) of update sequences with a type/range invariant after every step, over every characteristic constructor (values also arriving through read callbacks); enumerated constructor x hostile-value matrix, and the same matrix over every characteristic as composed by every service and accessory constructor",
         level_text=("Generated search: for every characteristic constructor found at check time (round-robin, so each is covered in each run) sequences of 1..12 local and remote updates with JSON-like and Go-native values "
                     "(numbers of any magnitude, numeric and non-numeric strings incl. NaN/Inf spellings, null, arrays, objects, the same composite twice); after every step the stored value must have the Go kind of the declared format, "
                     "lie within declared bounds, the typed getter must not panic and the characteristic must JSON-encode. A fixed matrix of 27 hostile values x every constructor x local/remote x twice is enumerated."),
@@ -153,7 +153,7 @@ PROPS = {
     ),
     "C14": dict(
         pkg="c14", level="exploration", prebuild="go run ./cmd/genregistry",
-        technique="property-based testing (rapid) over generated accessory compositions with uniqueness / rebuild-stability / JSON well-formedness invariants; every accessory and service constructor enumerated",
+        technique="property-based testing (rapid) over generated accessory compositions (including accessories extended after their first publication) with uniqueness / rebuild-stability / JSON well-formedness invariants; every accessory and service constructor enumerated; the same invariants on /accessories of a started transport built through NewIPTransport",
         level_text=("Generated compositions of 1..40 accessories (any accessory constructor, 0..6 extra services from any service constructor, hidden/primary/linked, explicit ids from a small range to provoke collisions or automatic ids) are built, "
                     "added to a container in order and checked: ids unique and non-zero, AddAccessory errors consistent with membership, a second build from scratch yields identical ids, and the container's JSON parses into the HAP shape with ids equal to the objects'."),
         level_note="Trusted: the JSON shape checker. Accessories are completed before they are added to a container (as the library's own transport does). The wire-level fetch of /accessories is covered by C09.",
@@ -187,7 +187,7 @@ PROPS = {
     ),
     "C08": dict(
         pkg="c08", level="exploration",
-        technique="schedule exploration: rapid-generated interleavings of 2..5 writers driven through harness-owned schedule points (hooks in the write path + gated socket write), free-running stress on all cores, and a -race build; peer-side opener as oracle",
+        technique="schedule exploration: rapid-generated interleavings of 2..5 writers driven through harness-owned schedule points (hooks in the write path + gated socket write), free-running stress on all cores (with the connection's reading side active), a session-switch ordering test, a live transport with five notifying goroutines plus requests read strictly at HAP-message level, and a -race build; peer-side opener as oracle",
         level_text=("The harness owns the schedule: writers park on entering Write, before sealing, after sealing and inside the socket write; a rapid-drawn choice list decides which parked goroutine runs next. The captured socket bytes, in completion order, must open under the peer's "
                     "opener with counters 0,1,2,... and parse into each writer's payload exactly once and contiguous. A hook-free mode runs 2..8 writers plus keep-alive ticks freely on all cores; thorough repeats it under the race detector."),
         level_note="Trusted: refctl opener, the scheduler. Only the four named points are owned, not every instruction boundary; the settle period (1.5 ms) affects which schedules are reached, never the verdict.",
@@ -334,7 +334,7 @@ PROPS = {
     ),
     "C20": dict(
         pkg="c20", level="exploration",
-        technique="stateful property-based testing (rapid) of start / set-values / pair / unpair / stop / restart histories on one storage directory against the advertised TXT records and the stored identity; exhaustive enumeration of all 10^8 eight-digit setup codes (thorough) plus generated non-code strings against an independent acceptance rule; round trip of the setup URI through an independent base-36 decoder",
+        technique="stateful property-based testing (rapid) of start / set-values / pair / unpair / stop / restart histories on one storage directory against the advertised TXT records and the stored identity, plus starts killed at every crash point (first start on empty storage, restart on existing storage) followed by complete starts; exhaustive enumeration of all 10^8 eight-digit setup codes (thorough) plus generated non-code strings against an independent acceptance rule; round trip of the setup URI through an independent base-36 decoder",
         level_text=("Histories restart a real transport on the same storage with the same or a structurally different accessory set (extra service, extra bridged accessory, other accessory type, changed permission, no bridge), change values in between, pair and unpair controllers through the protocol while running or through the database while stopped. "
                     "After every start: advertised id and stored key pair equal the first run's, every paired controller still pair-verifies, c# is the previous value plus one exactly when the variant differs from the previous run and never moves on value changes, sf is 1 exactly when no controller is stored (also after each pairing change while running). "
                     "ValidatePin is compared with '^[0-9]{8}$ minus the twelve trivial codes' on every code (thorough: all 10^8, quick: a stride sample plus neighbours of the trivial codes) and on generated other strings; XHMURI is decoded by an independent decoder."),
